@@ -36,16 +36,17 @@ type waiterResult struct {
 }
 
 func runC11(t *testing.T, res *common.Result, rng *common.Rng) {
-	res.Rule = "matrix {SIGINT, SIGTERM} x server configurations x K workload points (quick: default config, K=3, one workload per signal; thorough: 5 configs, K=10, 3 seeded workloads per config and signal). " +
+	res.Rule = "matrix {SIGINT, SIGTERM} x server configurations x K workload points (quick: default and no-clear-on-disconnect configs, K=3, one workload per signal; thorough: 5 configs, K=10, 3 seeded workloads per config and signal). " +
 		"The workload is a seeded sequence of up to 12 requests from 2 gRPC connections and 1 REST session: TryLock/Lock grants with no lease or a 60 s lease on size-1 and size-2 names, own Unlocks, " +
 		"and (request 4 at the latest) blocked Lock calls without wait timeout on a held name; the point is the number of requests issued when the signal is sent; at some points a churn of TryLock/Unlock requests is in flight too. " +
 		"A case is (signal, config, point, waiters in flight, churn, shape of the acknowledged hold set H by owner transport and lease); non-trivial when H is not empty or a waiter is in flight"
-	cfgs := []c11cfg{{"default", true, nil}}
+	// both disconnect policies in every tier: the closers end every session, and what a session end does
+	// depends on the policy
+	cfgs := []c11cfg{{"default", true, nil}, {"no-clear-on-disconnect", true, []string{"--no_clear_on_disconnect"}}}
 	K, workloads := 3, 1
 	if common.Thorough() {
 		K = 10
 		cfgs = append(cfgs,
-			c11cfg{"no-clear-on-disconnect", true, []string{"--no_clear_on_disconnect"}},
 			c11cfg{"one-shard", true, []string{"--shards", "1"}},
 			c11cfg{"no-rest", false, nil},
 			c11cfg{"fast-gc", true, []string{"--lock_gc_interval", "1s", "--lock_gc_min_idle", "0s"}})
